@@ -141,23 +141,121 @@ Section Json.
   Qed.
 End Json.
 
+(* --------------------------------------------------------------- generic: tabwriter *)
+Definition no_ff (x : bytes) : bool := negb (has_byte 12 x).
+
+Lemma ff_to_nl_id x : no_ff x = true -> ff_to_nl x = x.
+Proof.
+  unfold no_ff, has_byte, ff_to_nl. induction x as [|c x IH]; intro H; [reflexivity|].
+  cbn [existsb] in H. apply negb_true_iff, orb_false_iff in H as [H1 H2]. cbn [map].
+  rewrite N.eqb_sym, H1. f_equal. apply IH. apply negb_true_iff. exact H2.
+Qed.
+
+Lemma map_ff_id xs : forallb no_ff xs = true -> map ff_to_nl xs = xs.
+Proof.
+  induction xs as [|x xs IH]; intro H; [reflexivity|]. cbn [forallb] in H.
+  apply andb_true_iff in H as [H1 H2]. cbn [map]. rewrite (ff_to_nl_id x H1), (IH H2). reflexivity.
+Qed.
+
+Lemma existsb_ff_false xs : forallb no_ff xs = true -> existsb (has_byte 12) xs = false.
+Proof.
+  induction xs as [|x xs IH]; intro H; [reflexivity|]. cbn [forallb] in H.
+  apply andb_true_iff in H as [H1 H2]. cbn [existsb]. unfold no_ff in H1. apply negb_true_iff in H1.
+  rewrite H1, (IH H2). reflexivity.
+Qed.
+
+Theorem write_generic_legal xs :
+  forallb (legal_elem TGeneric) xs = true -> forallb no_ff xs = true ->
+  write_generic xs = Some (write_lines xs).
+Proof.
+  intros L F. unfold write_generic.
+  assert (forallb tab_free xs = true) as ->.
+  { apply forallb_forall. intros x I. rewrite forallb_forall in L. specialize (L x I).
+    cbn [legal_elem] in L. repeat (apply andb_true_iff in L as [L ?]). assumption. }
+  cbn [negb]. rewrite (existsb_ff_false xs F), andb_false_r.
+  destruct (existsb (has_byte 255) xs); [reflexivity|]. rewrite (map_ff_id xs F). reflexivity.
+Qed.
+
+(* F15-3: a form feed is written as a line break *)
+Lemma generic_ff_refuted :
+  forallb (legal_elem TGeneric) [[97; 12; 98]] = true /\
+  roundtrip TGeneric [[97; 12; 98]] = Some ([[97]; [98]], false, false).
+Proof. vm_compute. auto. Qed.
+
+(* --------------------------------------------------------------- paths *)
+Lemma split_colon_app x rest : no_colon x = true ->
+  split_colon (x ++ 58 :: rest) = x :: split_colon rest.
+Proof.
+  unfold no_colon, has_byte. induction x as [|c x IH]; intro H; [reflexivity|].
+  cbn [existsb] in H. apply negb_true_iff, orb_false_iff in H as [H1 H2].
+  cbn [app split_colon]. rewrite N.eqb_sym, H1. rewrite IH; [reflexivity|]. apply negb_true_iff. exact H2.
+Qed.
+
+Lemma split_colon_single x : no_colon x = true -> split_colon x = [x].
+Proof.
+  unfold no_colon, has_byte. induction x as [|c x IH]; intro H; [reflexivity|].
+  cbn [existsb] in H. apply negb_true_iff, orb_false_iff in H as [H1 H2].
+  cbn [split_colon]. rewrite N.eqb_sym, H1. rewrite IH; [reflexivity|]. apply negb_true_iff. exact H2.
+Qed.
+
+Theorem roundtrip_paths xs : xs <> [] -> forallb no_colon xs = true ->
+  split_colon (join_colon xs) = xs.
+Proof.
+  intros NE H. induction xs as [|x xs IH]; [congruence|].
+  cbn [forallb] in H. apply andb_true_iff in H as [H1 H2].
+  destruct xs as [|y xs']; [apply split_colon_single; exact H1|].
+  change (join_colon (x :: y :: xs')) with (x ++ 58 :: join_colon (y :: xs')).
+  rewrite split_colon_app by exact H1. f_equal. apply IH; [discriminate|exact H2].
+Qed.
+
+(* F15-4: the empty list is written as the empty string and read as [""] *)
+Lemma paths_empty_refuted : roundtrip TPaths [] = Some ([[]], false, false).
+Proof. reflexivity. Qed.
+
+(* --------------------------------------------------------------- yaml *)
+Section Yaml.
+  Variable yscalar : bytes -> bytes.
+  Variable ydec : bytes -> option (list bytes).
+  (* gopkg.in/yaml.v3: a block sequence of encoded string scalars decodes to the
+     strings; the encoding of a non-empty sequence is not blank *)
+  Hypothesis ycodec : forall xs, xs <> [] -> ydec (write_yaml yscalar xs) = Some xs.
+  Hypothesis yenc_not_blank : forall xs, xs <> [] -> crlf_trim (write_yaml yscalar xs) <> [].
+
+  Theorem roundtrip_yaml xs : read_yaml ydec (write_yaml yscalar xs) = (xs, false).
+  Proof.
+    destruct xs as [|x xs]; [reflexivity|]. unfold read_yaml.
+    destruct (crlf_trim (write_yaml yscalar (x :: xs))) eqn:E.
+    - exfalso. eapply yenc_not_blank; [|exact E]. discriminate.
+    - rewrite ycodec by discriminate. reflexivity.
+  Qed.
+End Yaml.
+
 (* ------------------------------------------------------ the model function *)
 Definition main_ty (t : ty) : Prop := match t with TOther _ => False | _ => True end.
 
+(* the exact guard beyond the alphabets: it excludes known findings 3 and 4 *)
+Definition extra (t : ty) (xs : list bytes) : bool :=
+  match t with
+  | TGeneric => forallb no_ff xs
+  | TPaths => negb (is_nil xs)
+  | _ => true
+  end.
+
 Theorem roundtrip_legal t xs : main_ty t ->
-  forallb (legal_elem t) xs = true ->
+  forallb (legal_elem t) xs = true -> extra t xs = true ->
   roundtrip t xs = Some (xs, match t, xs with TJson, [] => true | _, _ => false end, false).
 Proof.
-  intros M L. destruct t; try contradiction; cbn [roundtrip].
+  intros M L X. destruct t; try contradiction; cbn [roundtrip extra] in *.
   - rewrite (roundtrip_str xs L). reflexivity.
-  - assert (forallb tab_free xs = true) as ->.
-    { apply forallb_forall. intros x I. rewrite forallb_forall in L. specialize (L x I).
-      cbn [legal_elem] in L. repeat (apply andb_true_iff in L as [L ?]). assumption. }
-    rewrite (roundtrip_generic xs L). reflexivity.
+  - rewrite (write_generic_legal xs L X). rewrite (roundtrip_generic xs L). reflexivity.
   - rewrite sanitize_id_all; [destruct xs; reflexivity|].
     apply forallb_forall. intros x I. rewrite forallb_forall in L. specialize (L x I).
     cbn [legal_elem] in L. repeat (apply andb_true_iff in L as [L ?]). assumption.
   - rewrite (roundtrip_str xs L). reflexivity.
+  - reflexivity.
+  - rewrite roundtrip_paths; [reflexivity|destruct xs; [discriminate|discriminate]|].
+    apply forallb_forall. intros x I. rewrite forallb_forall in L. specialize (L x I).
+    cbn [legal_elem] in L. repeat (apply andb_true_iff in L as [L ?]). assumption.
 Qed.
 
 (* ----------------------------------------------------------------- foreach *)
@@ -231,15 +329,15 @@ Definition model_obs (t : ty) (xs : list bytes) : option obs :=
 Theorem model_meets_spec t cin docs :
   main_ty t ->
   let xs := map expand cin in
-  forallb nonempty xs = true ->
+  forallb nonempty xs = true -> extra t xs = true ->
   forall ob, model_obs t xs = Some ob ->
   spec_ok {| c_ty := t; c_in := cin; c_legal_other := true; c_docs := docs; c_obs := ob |} = true.
 Proof.
-  intros M xs NE ob MO. unfold spec_ok.
+  intros M xs NE X ob MO. unfold spec_ok.
   destruct (legal _) eqn:L; [|reflexivity].
   assert (L' : forallb (legal_elem t) xs = true).
   { unfold legal in L. cbn [c_ty c_in] in L. destruct t; try contradiction; exact L. }
-  unfold model_obs in MO. rewrite (roundtrip_legal t xs M L') in MO. inversion MO; subst ob; clear MO.
+  unfold model_obs in MO. rewrite (roundtrip_legal t xs M L' X) in MO. inversion MO; subst ob; clear MO.
   cbn [c_ty c_in c_obs o_werr o_read o_rerr o_typed o_each]. fold xs.
   rewrite !expand_lit, elems_eqb_refl. cbn [negb andb].
   assert (W : (negb match t with TJson => match xs with [] => true | _ => false end | _ => false end
@@ -257,7 +355,9 @@ Proof.
     - rewrite L'. cbn [andb]. apply no_space_no_cr; assumption.
     - rewrite L'. cbn [andb]. assumption.
     - apply andb_true_iff; split; assumption.
-    - rewrite L'. cbn [andb]. apply no_space_no_cr; assumption. }
+    - rewrite L'. cbn [andb]. apply no_space_no_cr; assumption.
+    - apply andb_true_iff; split; assumption.
+    - rewrite L'. cbn [andb]. assumption. }
   destruct (foreach_once_in_order xs T) as [_ S]. rewrite S. apply elems_eqb_refl.
 Qed.
 
@@ -294,5 +394,7 @@ Lemma legal_sharp :
   rt_differs TGeneric [N.iter 65536 (cons 120) []] = true /\
   rt_differs TStr [N.iter 65535 (cons 120) []] = false /\
   (* json: bytes that are not UTF-8 *)
-  rt_differs TJson [[97; 255]] = true.
+  rt_differs TJson [[97; 255]] = true /\
+  (* paths: the separator inside an element *)
+  rt_differs TPaths [[97; 58; 98]] = true.
 Proof. vm_compute. repeat split. Qed.
